@@ -14,7 +14,7 @@ pub fn def() -> PropDef {
         job_level,
         run_job,
         replay,
-        rule: "configs: typing keys a (plain a, or a tap-hold 8: time-sensitive), b, c = lsft; record / stop / stop-truncate 1 / play keys; x replay-delay-behaviour {constant, recorded} x dynamic-macro-max-presses {128, 2}. Scenario: [optionally hold c before starting], start recording, EVERY physically consistent typing schedule of N events over a,b,c with gaps from {0,1,3,12} (quick N=4, thorough N=5), stop (plain stop / stop-truncate / pressing record again / the size limit), settle, play (once; twice; again while the replay runs), settle. Also: self-play inside the recording, nested play of a second macro, re-recording over the id. Relational oracle on the REAL code: the key output produced during the replay equals the output of feeding the same typed events (minus the stop key and the truncated tail, plus releases of the keys still down at stop) to a FRESH instance: same press order, same multiset of events (time-insensitive config: any pacing; time-sensitive config with recorded delays: same tap/hold decisions); nothing is held after the replay; a self-playing macro terminates; with max-presses 2 the recording ends by itself and the replay holds at most the limit.",
+        rule: "configs: typing keys a (plain a, or a tap-hold 8: time-sensitive), b, c = lsft; record / stop / stop-truncate 1 / play keys; x replay-delay-behaviour {constant, recorded} x dynamic-macro-max-presses {128, 2}. Scenario: [optionally hold c before starting], start recording, EVERY physically consistent typing schedule of N events over a,b,c with gaps from {0,1,3,12} (quick N=4, thorough N=5), stop (plain stop / stop-truncate / pressing record again / the size limit), settle, play (once; twice; again while the replay runs), settle. Also: self-play inside the recording, nested play of a second macro, re-recording over the id; play-graph family: macros 1 and 2 recorded as EVERY sequence of <= L items (quick 2, thorough 3) over {tap a, tap b, play 1, play 2}, then each played: the replay terminates (at most L*L+2 key presses) and leaves nothing pressed, whatever cycles the play graph has. Relational oracle on the REAL code: the key output produced during the replay equals the output of feeding the same typed events (minus the stop key and the truncated tail, plus releases of the keys still down at stop) to a FRESH instance: same press order, same multiset of events (time-insensitive config: any pacing; time-sensitive config with recorded delays: same tap/hold decisions); nothing is held after the replay; a self-playing macro terminates; with max-presses 2 the recording ends by itself and the replay holds at most the limit.",
         assumptions: &["typing gaps are chosen away from the tap-hold boundary (3 vs 12 against a timeout of 8) so that the one-event delay lag of the recorder cannot flip a decision", "stepper mode (every ms ticks); the blocked-ms recording finding of C07 is separate"],
         required_level,
         min_outcomes: 3,
@@ -440,6 +440,103 @@ fn specials(spec: &Spec, st: &mut Stats, found: &mut Vec<Violation>) {
     }
 }
 
+/// Play-graph family: macros 1 and 2 are each recorded as EVERY sequence of <= L items over
+/// {tap a, tap b, play 1, play 2}; then each of them is played. Whatever the play graph (self loops,
+/// mutual recursion, a cycle that does not include the macro played from the keyboard), the replay
+/// must terminate ("a macro never replays itself recursively"): without recursion a macro of <= L
+/// items expands to at most L*L key taps; and nothing may stay pressed.
+fn play_graphs(spec: &Spec, max_items: usize, st: &mut Stats, found: &mut Vec<Violation>) {
+    let cfg = spec.cfg();
+    let items = ["a", "b", "p", "u"]; // p = play 1, u = play 2
+    let mut seqs: Vec<Vec<usize>> = vec![];
+    for len in 1..=max_items {
+        let mut idx = vec![0usize; len];
+        loop {
+            seqs.push(idx.clone());
+            let mut k = 0;
+            while k < len {
+                idx[k] += 1;
+                if idx[k] < items.len() {
+                    break;
+                }
+                idx[k] = 0;
+                k += 1;
+            }
+            if k == len {
+                break;
+            }
+        }
+    }
+    let bound = max_items * max_items + 2;
+    let mut n = 0u64;
+    for m1 in &seqs {
+        for m2 in &seqs {
+            // only graphs with at least one play item are interesting
+            if !m1.iter().chain(m2.iter()).any(|i| *i >= 2) {
+                continue;
+            }
+            for play in ["p", "u"] {
+                if found.len() >= 3 {
+                    return;
+                }
+                let mut h = vec![Ev::T(2)];
+                // record macro 2 first (so that macro 1 can play it), then macro 1
+                h.extend(tap("q"));
+                for i in m2 {
+                    h.extend(tap(items[*i]));
+                    h.push(Ev::T(30));
+                }
+                h.extend(tap("s"));
+                h.push(Ev::T(40));
+                h.extend(tap("r"));
+                for i in m1 {
+                    h.extend(tap(items[*i]));
+                    h.push(Ev::T(60));
+                }
+                h.extend(tap("s"));
+                h.push(Ev::T(80));
+                let n_play = h.len();
+                h.extend(tap(play));
+                h.push(Ev::T(1500));
+                crate::par::announce(&cfg, &h);
+                st.evaluations += 1;
+                n += 1;
+                let Ok(mut s) = Sim::new(&cfg) else { return };
+                if let Err(m) = s.run(&h[..n_play]) {
+                    found.push(mk_violation("C19", format!("play-graph/{}", panic_signature(&m)), m, "special", &cfg, &h, json!({"spec": spec.tag()})));
+                    continue;
+                }
+                let n0 = s.n_out();
+                match s.run(&h[n_play..]) {
+                    Err(m) => found.push(mk_violation("C19", format!("play-graph/{}", panic_signature(&m)), m, "special", &cfg, &h, json!({"spec": spec.tag()}))),
+                    Ok(()) => {
+                        st.validated += 1;
+                        let out = key_events(&crate::sim::parse_outputs(&s.raw_outputs()[n0..]));
+                        let presses = out.iter().filter(|x| x.0).count();
+                        let names = |v: &Vec<usize>| v.iter().map(|i| ["a", "b", "play1", "play2"][*i]).collect::<Vec<_>>().join(" ");
+                        if presses > bound && !found.iter().any(|f| f.signature == "play-graph/recursion") {
+                            found.push(mk_violation(
+                                "C19",
+                                "play-graph/recursion".into(),
+                                format!("{}: macro 1 = [{}], macro 2 = [{}], playing macro {}: {presses} key presses in 1500 ticks (a non-recursive replay has at most {bound})", spec.tag(), names(m1), names(m2), if play == "p" { 1 } else { 2 }),
+                                "special",
+                                &cfg,
+                                &h,
+                                json!({"spec": spec.tag()}),
+                            ));
+                        }
+                        if !crate::sim::os_down_set(&s.trace()).is_empty() && !found.iter().any(|f| f.signature == "play-graph/key-left-down") {
+                            found.push(mk_violation("C19", "play-graph/key-left-down".into(), format!("{}: macro 1 = [{}], macro 2 = [{}]: keys held after the replay", spec.tag(), names(m1), names(m2)), "special", &cfg, &h, json!({"spec": spec.tag()})));
+                        }
+                    }
+                }
+            }
+        }
+    }
+    st.count("play_graph_scenarios", n);
+    st.outcome("play-graphs");
+}
+
 fn run_job(tier: Tier, idx: usize, st: &mut Stats) {
     let j = &jobs(tier)[idx];
     let cfg = j.spec.cfg();
@@ -454,6 +551,9 @@ fn run_job(tier: Tier, idx: usize, st: &mut Stats) {
     let mut found: Vec<Violation> = vec![];
     if j.special {
         specials(&j.spec, st, &mut found);
+        if !j.spec.timed && j.spec.max >= 100 {
+            play_graphs(&j.spec, if tier == Tier::Quick { 2 } else { 3 }, st, &mut found);
+        }
         st.sample(json!({"family": "special scenarios (self-play, nested play, re-record, size limit)", "spec": j.spec.tag()}));
     } else {
         let keys = [kc("a"), kc("b"), kc("c")];
